@@ -13,7 +13,8 @@ CLASSES = {
     'C03': {'op_dims', 'mono_dims', 'linear_dims', 'components_dims', 'not_equivariant'},
     'C04': {'op_semantics', 'twin_mismatch', 'twin_value_differs', 'op_not_native'},
     'C05': {'not_inverse', 'round_trip'},
-    'C18': {'definition_missing', 'definition_formula', 'definition_solved_form', 'tensor_definition', 'formula_value', 'tensor_definition_value'},
+    'C18': {'definition_missing', 'definition_formula', 'definition_solved_form', 'tensor_definition', 'formula_value', 'tensor_definition_value',
+            'theory_consistency', 'theory_uncovered'},
 }
 ROLE = {'IsobaricHeatCapacity': 1, 'SpecificIsobaricHeatCapacity': 1, 'IsochoricHeatCapacity': 2, 'SpecificIsochoricHeatCapacity': 2,
         'GasConstant': 3, 'SpecificGasConstant': 3, 'HeatCapacityRatio': 4}
@@ -119,6 +120,83 @@ def tensor_def_events(ev, rels, seed):
             oi = [int(x) for x in o] if exact else []
         out.append({'e': 'TensorDef', 'def': key, 'rel': r['id'], 'num': num, 'a': a, 'b': b, 'out': oi, 'exact': exact})
     return out
+
+
+def frac_hex(fr, bits=64):
+    """C hexadecimal floating literal of the Fraction rounded (half-even) to `bits` significant bits"""
+    from fractions import Fraction as Fr
+    if fr == 0:
+        return '0x0p+0'
+    sign, a = ('-' if fr < 0 else ''), abs(fr)
+    e = a.numerator.bit_length() - a.denominator.bit_length() - bits
+    while a / Fr(2) ** e >= 2 ** bits:
+        e += 1
+    while a / Fr(2) ** e < 2 ** (bits - 1):
+        e -= 1
+    x = a / Fr(2) ** e
+    m = x.numerator // x.denominator
+    rem = x - m
+    if rem > Fr(1, 2) or (rem == Fr(1, 2) and m % 2):
+        m += 1
+    return f'{sign}0x{m:x}p{e:+d}'
+
+
+def hex_frac(s):
+    """exact value of a %La string -> Fraction, or None for inf/nan"""
+    from fractions import Fraction as Fr
+    s = s.strip().lower()
+    if 'inf' in s or 'nan' in s:
+        return None
+    neg = s.startswith('-')
+    s = s.lstrip('+-')[2:]
+    mant, _, ex = s.partition('p')
+    ip, _, fp = mant.partition('.')
+    v = Fr(int((ip + fp) or '0', 16), 16 ** len(fp)) * Fr(2) ** int(ex or 0)
+    return -v if neg else v
+
+
+def theory_events(ev, rels):
+    """C18 derived forms (spec/Theory.tla): TLC checks that the theory states are models of all definitions and serialises them
+    (MC_Theory); every relation among pairwise distinct variables of the theory is evaluated at every state."""
+    from fractions import Fraction as Fr
+    import math
+    wd = C.work_dir('theory')
+    outp = os.path.join(wd, 'theory_states.json')
+    res = C.run_tlc('MC_Theory', 'MC_Theory.cfg', env={'OUT': outp}, workers=1, timeout=300)
+    if not res.ok or not os.path.exists(outp):
+        raise C.ToolError('MC_Theory: the theory states are not models of the definitions\n' + res.out[-1500:])
+    th = json.load(open(outp))
+    tvars = set(th['vars'])
+    cand = [r for r in rels if r['ret'] in tvars and all(a in tvars for a in r['args'])
+            and len(set([r['ret']] + r['args'])) == len(r['args']) + 1]
+    q, meta = [], []
+    for k, st in enumerate(th['states']):
+        for r in cand:
+            for num in 'fdl':
+                flat = []
+                for a in r['args']:
+                    flat += [frac_hex(Fr(*st[a]))] + ['0x0p+0'] * 8
+                while flat and flat[-1] == '0x0p+0':
+                    flat.pop()
+                q.append((r['id'], num, flat))
+                meta.append((r, k + 1, num, [st[a] for a in r['args']]))
+    outs = ev.batch(q, raw=True) if q else []
+    digits = {'f': 24, 'd': 53, 'l': 64}
+    evs = []
+    for (r, k, num, args), o in zip(meta, outs):
+        v = hex_frac(o[0]) if o else None
+        e = {'e': 'Theory', 'rel': r['id'], 'state': k, 'num': num, 'args': args, 'out': [0, 1], 'ulps': 1000000, 'finite': v is not None}
+        if v is not None:
+            c = v.limit_denominator(4096)
+            if abs(c.numerator) <= 10 ** 6:
+                e['out'] = [c.numerator, c.denominator]
+                if c == 0:
+                    e['ulps'] = 0 if v == 0 else 1000000
+                else:
+                    ulp = Fr(2) ** (math.floor(math.log2(abs(c))) + 1 - digits[num])
+                    e['ulps'] = min(1000000, math.ceil(abs(v - c) / ulp))
+        evs.append(e)
+    return evs, res, len(cand)
 
 
 def derive_pairs(rels):
@@ -273,6 +351,7 @@ def run(n=40):
         fps = F.fingerprints(ev, rels, qs, C.SEED)
         components_class(ev, rels, fps, C.SEED)
         tdefs = tensor_def_events(ev, rels, C.SEED)
+        thevs, thres, thn = theory_events(ev, rels)
     finally:
         ev.close()
     stddim = {u['type']: u['dim'] for u in uout['unit_table'] if u['std']}
@@ -304,7 +383,7 @@ def run(n=40):
         for r in rels:
             if r['id'] != d['id'] and sorted([r['ret']] + r['args']) == tset and 'Number' not in tset:
                 solved.append({'e': 'Solved', 'def': dkey, 'rel': r['id']})
-    facts += twins + pairs + defs + tdefs + solved
+    facts += twins + pairs + defs + tdefs + solved + thevs
     wd = C.work_dir('rel')
     facts += numeric_layer(exe, rels, fps, qs, stddim, twins, pairs, wd, n)
     fp_ = C.write_ndjson(os.path.join(wd, 'relfacts.ndjson'), facts)
@@ -313,7 +392,7 @@ def run(n=40):
     ok = res.ok and os.path.exists(outp)
     return {'facts': facts, 'tlc': res, 'accepted': ok, 'result': json.load(open(outp)) if ok else None, 'rels': rels,
             'fps': fps, 'twins': twins, 'pairs': pairs, 'defs': defs, 'graph': g, 'exe': exe, 'excluded': excluded,
-            'ambiguous_twins': amb, 'workdir': wd, 'uout': uout}
+            'ambiguous_twins': amb, 'workdir': wd, 'uout': uout, 'theory_tlc': thres, 'theory_relations': thn}
 
 
 def report(chk, pid, out):
